@@ -202,6 +202,9 @@ func init() {
 			// crashes at quiescent points and at storage boundaries, restarts
 			reg(&explore.Suite{Name: fmt.Sprintf("crash%d-d%d", n, d), Cfg: sim.Config{Voters: n, StoreHook: true},
 				Budget: sim.Budget{Timeouts: 3, Elapses: 3, Beats: 1, Writes: 2, Reorders: -1, Splits: 1, Crashes: 1, Arms: 1, Restarts: 2, Deviations: d}})
+			// the same on the library's real file-backed storages (crashes at quiescent points)
+			reg(&explore.Suite{Name: fmt.Sprintf("filecrash%d-d%d", n, d), Cfg: sim.Config{Voters: n, FileStore: true},
+				Budget: sim.Budget{Timeouts: 3, Elapses: 3, Beats: 1, Writes: 2, Reorders: -1, Splits: 1, Crashes: 1, Restarts: 2, Deviations: d}})
 			// faults of the network: drops, duplicates, late replies
 			reg(&explore.Suite{Name: fmt.Sprintf("net%d-d%d", n, d), Cfg: sim.Config{Voters: n},
 				Budget: sim.Budget{Timeouts: 2, Elapses: 2, Beats: 2, Writes: 2, Reorders: -1, Splits: 3, Drops: 1, DropReplies: 1, Dups: 2, Deviations: d}})
@@ -210,6 +213,9 @@ func init() {
 	for d := 0; d <= 5; d++ {
 		reg(&explore.Suite{Name: fmt.Sprintf("split3-d%d", d), Cfg: sim.Config{Voters: 3}, Seed: seedSplit,
 			Budget: sim.Budget{Timeouts: 2, Elapses: 2, Beats: 1, Reorders: -1, Splits: 1, Deviations: d}})
+		// two candidates of one term, voters that crash and restart, on the real file-backed storages
+		reg(&explore.Suite{Name: fmt.Sprintf("filesplit3-d%d", d), Cfg: sim.Config{Voters: 3, FileStore: true}, Seed: seedSplit,
+			Budget: sim.Budget{Timeouts: 2, Elapses: 2, Beats: 1, Reorders: -1, Splits: 1, Crashes: 1, Restarts: 1, Deviations: d}})
 		reg(&explore.Suite{Name: fmt.Sprintf("lead3-d%d", d), Cfg: sim.Config{Voters: 3, StoreHook: true}, Seed: seedLeader3,
 			Budget: sim.Budget{Timeouts: 2, Elapses: 2, Beats: 1, Writes: 2, Reorders: -1, Splits: 2, Crashes: 2, Arms: 1, Restarts: 2, Deviations: d}})
 	}
@@ -472,6 +478,11 @@ func init() {
 			Budget: sim.Budget{Timeouts: 2, Elapses: 3, Writes: 1, Cuts: 1, Crashes: 1, Reorders: -1, Deviations: d}})
 		reg(&explore.Suite{Name: fmt.Sprintf("pending3-d%d", d), Cfg: sim.Config{Voters: 3}, Seed: oldLong,
 			Budget: sim.Budget{Timeouts: 1, Elapses: 1, Beats: 1, Writes: 2, Cuts: 1, Reorders: -1, Splits: 1, ClientTimeouts: 1, Deviations: d}})
+	}
+	// snapshots, compaction, conflicts and restarts on the real file-backed storages
+	for d := 0; d <= 4; d++ {
+		reg(&explore.Suite{Name: fmt.Sprintf("filesnap3-d%d", d), Cfg: sim.Config{Voters: 3, SnapAt: 2, FileStore: true}, Seed: seedLeader3, Monitors: snapMonitors,
+			Budget: sim.Budget{Timeouts: 2, Elapses: 2, Beats: 2, Writes: 3, Cuts: 2, Crashes: 1, Restarts: 1, Reorders: -1, Splits: 1, Deviations: d}})
 	}
 	// snapshots on (threshold 2): local snapshots, compaction, installation
 	for d := 0; d <= 4; d++ {
